@@ -10,7 +10,7 @@ CHECKS=("$@"); [ ${#CHECKS[@]} -eq 0 ] && CHECKS=("$ID")
 WT=/tmp/seed_${ID}${TAG}; OUT=/tmp/seed_${ID}${TAG}_out; DEST=/verif/seeded/${ID}${TAG}
 export CARGO_NET_OFFLINE=true
 [ -f "$OUT/patch.diff" ] || { echo "no patch in $OUT"; exit 2; }
-mkdir -p "$DEST"; cp "$OUT/patch.diff" "$DEST/"; cp "$OUT"/seed_demo.rs "$DEST/" 2>/dev/null; cp "$OUT/README.md" "$DEST/agent_README.md" 2>/dev/null
+mkdir -p "$DEST"; cp "$OUT/patch.diff" "$DEST/"; cp "$OUT"/seed_demo.rs "$OUT"/demo.sh "$OUT"/demo_cmd.txt "$DEST/" 2>/dev/null; cp "$OUT/README.md" "$DEST/agent_README.md" 2>/dev/null
 cd "$WT" || exit 2
 # demo location: integration test or in-crate module
 DEMO_CMD="cargo test --offline -p ruzstd --test seed_demo"
